@@ -368,6 +368,50 @@ impl World {
         }
     }
 
+    /// Model-free state invariant (C11): in the serialized master key, a secret is hybridized iff
+    /// one of the attributes of its right is declared hybridized in the structure stored next to it
+    /// (rights naming attributes the structure no longer has are skipped). Usable even when the
+    /// model has lost track of the implementation.
+    fn flavour_invariant(&mut self, what: &str) {
+        let Some(w) = self.msk_wire() else { return };
+        let mut hint_of: BTreeMap<u64, u64> = BTreeMap::new();
+        for d in &w.structure.dims {
+            for a in &d.attrs {
+                hint_of.insert(a.id, a.hint);
+            }
+        }
+        for (r, chain) in &w.chains {
+            let mut c = wire::Cur::new(r);
+            let mut ids = vec![];
+            let mut ok = true;
+            while c.remaining() > 0 {
+                match c.leb("id") {
+                    Ok(id) => ids.push(id),
+                    Err(_) => {
+                        ok = false;
+                        break;
+                    }
+                }
+            }
+            if !ok || ids.iter().any(|i| !hint_of.contains_key(i)) {
+                continue;
+            }
+            let expected = ids.iter().any(|i| hint_of[i] == 1);
+            if let Some((pos, _)) = chain.iter().enumerate().find(|(_, (_, s))| s.hybrid != expected) {
+                let detail = format!("after {what}: right {:?} has a secret (revision {pos}) with hybridized={} although its attributes' hints give {expected}", ids, !expected);
+                self.stats.findings.push(Finding {
+                    prop: "C11".into(),
+                    signature: format!("C11:msk-flavour-invariant:{what}"),
+                    detail,
+                    replay: self.replay.clone(),
+                });
+                self.stopped = true;
+                return;
+            }
+        }
+        self.stats.bump("flavour_invariant_checks");
+    }
+
     /// To be called after every successful mutation of the master key: structural invariants
     /// against the model, learning the bytes of new versions.
     fn after_msk_change(&mut self, what: &str) {
@@ -1224,6 +1268,9 @@ impl World {
                         }
                         self.after_msk_change("update");
                         if !self.stopped {
+                            self.flavour_invariant("update");
+                        }
+                        if !self.stopped {
                             self.push_mpk(out.ok().unwrap(), "update");
                         }
                     }
@@ -1291,13 +1338,25 @@ impl World {
                         let what = if is_rekey { "rekey" } else { "prune" };
                         self.after_msk_change(what);
                         if !self.stopped {
+                            self.flavour_invariant(what);
+                        }
+                        if !self.stopped {
                             self.push_mpk(out.ok().unwrap(), what);
                         }
                     }
                     Some(false) => {
                         self.unchanged_msk(&before, op);
                     }
-                    None => {}
+                    None => {
+                        // the call succeeded although it had to fail: the model cannot follow, but
+                        // the model-free invariants still can (and an update makes the state settle)
+                        if out.is_ok() {
+                            self.flavour_invariant("unexpected-rekey");
+                            if call(|| self.cc.update_msk(&mut self.msk)).is_ok() {
+                                self.flavour_invariant("update-after-unexpected-rekey");
+                            }
+                        }
+                    }
                 }
             }
             Op::Keygen { pol, text } => {
@@ -1777,7 +1836,7 @@ impl Gen {
         };
         if *budget <= 1 || depth >= 3 {
             *budget = budget.saturating_sub(1);
-            return if depth > 0 && self.rng.chance(1, 25) { Pol::All } else { leaf(self, dims) };
+            return if depth > 0 && self.rng.chance(1, 10) { Pol::All } else { leaf(self, dims) };
         }
         match self.rng.below(5) {
             0 => {
